@@ -46,4 +46,12 @@ def post(obs, tier, rep):
                 o["witness"] = dict(o.get("witness") or {}, native_qr=dict(check="|norm factors| of qr_vmap_uhf vs |prod diag R| from numpy per spin block (open shell 2+1)", max_deviation=dev))
             except Exception as e:   # noqa
                 o["witness"] = dict(native_error=repr(e)[:200])
+        if o["status"] == "refuted" and o["kind"] != "canary" and o["name"].split("[")[0] in ("C05.fp.energy.energy", "C05.fp.energy.weight") and not o.get("replayed"):
+            try:
+                from contracts import native
+                dev, rec = native.free_block_deviation()
+                o["replayed"] = bool(dev > 1e-9)
+                o["witness"] = dict(o.get("witness") or {}, native_block=dict(check="one real _block_scan_free block vs sum(E_L*ov)/sum(ov), ov = overlap of the un-normalised walkers", **rec))
+            except Exception as e:   # noqa
+                o["witness"] = dict(o.get("witness") or {}, native_error=repr(e)[:200])
     return obs
